@@ -22,11 +22,11 @@ type scriptedPeer struct {
 	ln       net.Listener
 	Greeting string
 
-	mu       sync.Mutex
-	conn     net.Conn
-	br       *bufio.Reader
-	received []byte       // everything the client wrote
-	cmds     []*peerCmd   // parsed commands in order
+	mu         sync.Mutex
+	conn       net.Conn
+	br         *bufio.Reader
+	received   []byte     // everything the client wrote
+	cmds       []*peerCmd // parsed commands in order
 	violations []string   // protocol violations seen by the peer (payload before "+", ...)
 
 	// OnCommand decides what to do with a fully received command; it runs in the peer's
@@ -49,11 +49,11 @@ type peerLiteral struct {
 }
 
 type peerCmd struct {
-	Tag   string
-	Name  string
-	Raw   []byte // the complete command as received, literal headers and payloads included
-	Line  string // command text with literals replaced by <LIT:i>
-	Lits  []peerLiteral
+	Tag  string
+	Name string
+	Raw  []byte // the complete command as received, literal headers and payloads included
+	Line string // command text with literals replaced by <LIT:i>
+	Lits []peerLiteral
 }
 
 var reLitHdr = regexp.MustCompile(`\{(\d+)(\+?)\}\r\n$`)
